@@ -291,8 +291,8 @@ def _run(t: int, c0: int, incl: bool, ipos: int, mra: int, faults: List[int], li
 @obligation(quick=200, thorough=600,
             partitions_quick=["nd == 0", "nd == 1 and t <= 2", "nd == 1 and t == 3", "nd == 2 and t == 1", "nd == 2 and t == 2"],
             partitions_thorough=["nd == 0", "nd == 1"] + [f"nd == 2 and t == {t}" for t in range(1, 5)]
-            + [f"nd == 3 and t == {t} and c0 == {c} and d1 {h}" for t in range(1, 5) for c in range(-1, t) for h in ("<= 4", ">= 5")
-               if not (h == ">= 5" and 3 * (t - 1 - c) < 5)],
+            + [f"nd == 3 and t == {t} and c0 == {c} and d1 {h} and d2 {h2}" for t in range(1, 5) for c in range(-1, t) for h in ("<= 4", ">= 5")
+               for h2 in ("<= 4", ">= 5") if not ((h == ">= 5" or h2 == ">= 5") and 3 * (t - 1 - c) < 5)],
             what="completed run, cursor anywhere: every later event exactly once, in order, last_sequence == yielded "
                  "sequence, for every placement of <= max_reconnect_attempts faults (connect error, or drop after any line)",
             bounds={"events t": "1..TMAX", "cursor c0": "-1..t-1", "max_reconnect_attempts": "0..MRA", "faults nd": "0..mra",
@@ -349,7 +349,10 @@ def ob_internal_filter(incl: bool, ipos: int, c0: int, nd: int, d1: int, d2: int
 @obligation(quick=200, thorough=600,
             partitions_quick=["g1 == 0", "g1 == 2 and live_from == 0", "g1 == 2 and live_from >= 1"],
             partitions_thorough=[f"nd == {n} and live_from == {k} and g1 == {g}" for n in range(0, 2) for k in range(0, 3) for g in (0, 2)]
-            + [f"nd == 2 and live_from == {k} and g1 == {g} and d1 {h}" for k in range(0, 3) for g in (0, 2) for h in ("<= 4", ">= 5")],
+            + [f"nd == 2 and live_from == {k} and g1 == 0 and d1 {h}" for k in range(0, 3) for h in ("<= 4", ">= 5")]
+            + [f"nd == 2 and live_from == {k} and g1 == 2 and {h}" for k, hs in ((0, ("d1 <= 4", "5 <= d1 <= 10", "11 <= d1 <= 16", "d1 >= 17")),
+                                                                                  (1, ("d1 <= 4", "5 <= d1 <= 10", "d1 >= 11")),
+                                                                                  (2, ("d1 <= 4", "5 <= d1 <= 9", "d1 >= 10"))) for h in hs],
             what="live run: events keep being appended (gaps shorter or longer than the heart-beat interval) while the "
                  "client streams and reconnects; heart-beat comment lines are ignored",
             bounds={"events": 3, "already stored at connect": "0..2", "gap before each append": "0 or 2 (heartbeat every 1); quick: the same gap before every append",
